@@ -241,7 +241,16 @@ Ltac sstep :=
       intros a E Ha; cbv beta in Ha |- *; brk; solve_post
   end.
 
-Ltac ssafe := cbv beta zeta; brk; repeat sstep.
+(* last resort: case-split on some [if]/[match] scrutinee occurring inside the call *)
+Ltac sdestr :=
+  match goal with
+  | |- safe _ ?a =>
+      match a with
+      | context [match ?c with _ => _ end] => destruct c eqn:?; brk
+      end
+  end.
+
+Ltac ssafe := cbv beta zeta; brk; repeat (first [ sstep | sdestr ]).
 
 (* ------------------------------------------------------------------ *)
 Lemma send_safe r m : NodeInv r -> safe (post r) (send r m).
@@ -625,4 +634,96 @@ Proof. intros H Hs. unfold step_follower. ssafe. Qed.
 #[export] Hint Extern 1 (snap_ok _) => assumption : safe.
 
 Theorem step_safe r m : NodeInv r -> snap_ok m -> safe (fun x => NodeInv (fst x)) (step r m).
-Proof. intros H Hs. unfold step. ssafe. Show. Qed.
+Proof. intros H Hs. unfold step. ssafe. Qed.
+#[export] Hint Extern 1 (safe _ (step _ _)) => eapply step_safe : safe.
+
+Lemma snap_ok_local m : m_type m <> MsgSnapshot -> snap_ok m.
+Proof. intros H E. contradiction. Qed.
+#[export] Hint Extern 2 (snap_ok (new_message _ _ _)) => apply snap_ok_local; discriminate : safe.
+#[export] Hint Extern 2 (snap_ok (set _ _ _)) => apply snap_ok_local; discriminate : safe.
+
+Lemma tick_election_safe r : NodeInv r -> safe (fun x => NodeInv (fst x)) (tick_election r).
+Proof. intros H. unfold tick_election. ssafe. Qed.
+Lemma tick_heartbeat_safe r : NodeInv r -> safe (fun x => NodeInv (fst x)) (tick_heartbeat r).
+Proof. intros H. unfold tick_heartbeat. ssafe. Qed.
+Theorem tick_safe r : NodeInv r -> safe (fun x => NodeInv (fst x)) (tick r).
+Proof.
+  intros H. unfold tick. destruct (r_state r);
+    first [apply tick_election_safe; exact H|apply tick_heartbeat_safe; exact H].
+Qed.
+#[export] Hint Extern 1 (safe _ (tick _)) => eapply tick_safe : safe.
+
+Theorem on_persist_entries_safe r i t : NodeInv r -> safe NodeInv (on_persist_entries r i t).
+Proof. intros H. unfold on_persist_entries. ssafe. Qed.
+#[export] Hint Extern 1 (safe _ (on_persist_entries _ _ _)) => eapply on_persist_entries_safe : safe.
+
+Theorem on_persist_snap_safe r i : NodeInv r -> safe NodeInv (on_persist_snap r i).
+Proof. intros H. unfold on_persist_snap. ssafe. Qed.
+#[export] Hint Extern 1 (safe _ (on_persist_snap _ _)) => eapply on_persist_snap_safe : safe.
+
+Theorem commit_apply_internal_safe r app skip : NodeInv r -> safe NodeInv (commit_apply_internal r app skip).
+Proof. intros H. unfold commit_apply_internal. ssafe. Qed.
+Theorem commit_apply_safe r app : NodeInv r -> safe NodeInv (commit_apply r app).
+Proof. intros H. apply commit_apply_internal_safe. exact H. Qed.
+#[export] Hint Extern 1 (safe _ (commit_apply _ _)) => eapply commit_apply_safe : safe.
+
+(* a membership change creates Progress entries with next_idx = last_index: the log must
+   not be empty (true on every leader: it holds at least its own no-op entry) *)
+Theorem raft_apply_conf_change_safe r cc :
+  NodeInv r -> 1 <= last_index (r_log r) -> safe (fun x => NodeInv (fst x)) (raft_apply_conf_change r cc).
+Proof.
+  intros H Hl. unfold raft_apply_conf_change. cbv zeta.
+  match goal with |- safe _ (match ?x with _ => _ end) => destruct x as [[c' chs]|e] end; [|ssafe].
+  eapply safe_bind.
+  { apply post_conf_change_safe. destruct H as [A B]. split; [|exact B].
+    cbn [set_conf_prs r_prs t_progress]. 
+    change (PrsOk (apply_changes (t_progress (r_prs r)) chs (last_index (r_log r)) (t_max_inflight (r_prs r)))).
+    apply PrsOk_apply_changes; assumption. }
+  intros x E Hx. cbv beta in Hx. brk. ssafe.
+Qed.
+
+Theorem load_state_safe r hs : NodeInv r -> safe NodeInv (load_state r hs).
+Proof. intros H. unfold load_state. ssafe. Qed.
+
+Theorem request_snapshot_safe r : NodeInv r -> safe (fun x => NodeInv (fst x)) (request_snapshot r).
+Proof. intros H. unfold request_snapshot. ssafe. Qed.
+
+Theorem ping_safe r : NodeInv r -> safe NodeInv (ping r).
+Proof. intros H. unfold ping. ssafe. Qed.
+
+Theorem adjust_max_inflight_msgs_safe r t c : NodeInv r -> safe NodeInv (adjust_max_inflight_msgs r t c).
+Proof. intros H. unfold adjust_max_inflight_msgs. ssafe. Qed.
+
+Theorem maybe_free_inflight_buffers_inv r : NodeInv r -> NodeInv (maybe_free_inflight_buffers r).
+Proof.
+  intros [A B]. split; [|exact B]. unfold maybe_free_inflight_buffers. cbn [r_prs t_progress].
+  set (f := fun (_ : N) (p : progress) => set_ins p (Inflights.maybe_free_buffer (ins p))).
+  change (PrsOk (map (fun kp => (fst kp, f (fst kp) (snd kp))) (t_progress (r_prs r)))).
+  apply PrsOk_map; [|exact A]. intros k p [Hi Hn]. split; [apply inf_maybe_free_inv; exact Hi|exact Hn].
+Qed.
+
+Theorem set_max_apply_unpersisted_log_limit_inv r k :
+  NodeInv r -> NodeInv (set_max_apply_unpersisted_log_limit r k).
+Proof. exact (fun H => H). Qed.
+
+Theorem enable_group_commit_safe r e : NodeInv r -> safe NodeInv (enable_group_commit r e).
+Proof. intros H. unfold enable_group_commit. ssafe. Qed.
+
+Lemma assign_groups_inv ids : forall m m', PrsOk m -> assign_groups m ids = Ok m' -> PrsOk m'.
+Proof.
+  induction ids as [|[peer g] rest IH]; intros m m' H E; cbn [assign_groups] in E.
+  - injection E as <-. exact H.
+  - destruct (g =? 0); [discriminate|].
+    destruct (pget m peer) as [pr|] eqn:G; [|eapply IH; eassumption].
+    eapply IH; [|exact E]. apply PrsOk_pput; [exact H|]. apply pr_ok_misc. eapply H; exact G.
+Qed.
+
+Theorem assign_commit_groups_safe r ids : NodeInv r -> safe NodeInv (assign_commit_groups r ids).
+Proof.
+  intros H. unfold assign_commit_groups.
+  destruct (assign_groups (t_progress (r_prs r)) ids) as [m'|s] eqn:E; cbn [bind].
+  2:{ apply assign_groups_sites_ok in E. destruct E as [<-|[]]. apply notin_b. vm_compute. reflexivity. }
+  assert (H' : NodeInv (r <| r_prs := r_prs r <| t_progress := m' |> |>)).
+  { destruct H as [A B]. split; [|exact B]. cbn. eapply assign_groups_inv; eassumption. }
+  ssafe.
+Qed.
